@@ -54,6 +54,9 @@ type Prog struct {
 	globalStr       map[*ssa.Global]*string
 	mu              sync.Mutex
 	srcLines        map[string][]string
+	inlineOK        map[*ssa.Function]bool
+	InitOnly        map[string]bool
+	AppendOnly      map[string]bool
 }
 
 func LoadProg(repo string) (*Prog, error) {
